@@ -382,7 +382,12 @@ def plans(sig, net, rng):
     if sig.fn in LATE_BAD:
         kw, n = valid_kwargs(sig, net, rng, n=2 if sig.bulk else None)
         kw.update(copy.deepcopy(LATE_BAD[sig.fn]))
-        add("malformed_geodata", kw, n, late_bad=True)
+        # create_junction rejects the malformed tuple by an explicit `raise`: late only while the translator
+        # finds that raise after the row write; once it precedes the write the fault is an ordinary rejection
+        if sig.fn == "create_junction" and not sig.late_raise:
+            add("malformed_geodata", kw, n, invalid=True)
+        else:
+            add("malformed_geodata", kw, n, late_bad=True)
     if sig.table == "heat_consumer":
         kw, n = valid_kwargs(sig, net, rng)
         kw.pop("qext_w")
